@@ -66,6 +66,8 @@ def weight_specs(rng, want):
     return qb(int(rng.choice([2, 3, 4])), int(rng.choice([0, 0, 1])), symmetric=int(rng.integers(0, 2)))
   if want == "fixed_mostneg":
     return qb(int(rng.choice([2, 3])), 0, symmetric=0)
+  if want == "fixed40":
+    return qb(4, 0, symmetric=0)
   if want == "ternary":
     return ("ternary", dict(alpha=1))
   if want == "binary":
@@ -103,6 +105,12 @@ def act_specs(rng, want):
     return ("quantized_po2", dict(bits=3, max_value=1))
   if want == "tanh":
     return ("quantized_tanh", dict(bits=int(rng.choice([3, 4]))))
+  if want == "ulaw":
+    return ("quantized_ulaw", dict(bits=int(rng.choice([3, 4])), integer=int(rng.choice([0, 1]))))
+  if want == "bernoulli":
+    return ("bernoulli", dict(alpha=1))
+  if want == "stochastic_binary":
+    return ("stochastic_binary", dict(alpha=1))
   raise ValueError(want)
 
 
@@ -111,6 +119,8 @@ def bias_specs(rng, want):
     return None
   if want == "fixed":
     return qb(int(rng.choice([3, 4])), int(rng.choice([0, 1])), symmetric=int(rng.integers(0, 2)), alpha=None)
+  if want == "fixed40":
+    return qb(4, 0, symmetric=0, alpha=None)
   if want == "po2":
     return ("quantized_po2", dict(bits=3))
   raise ValueError(want)
@@ -142,7 +152,8 @@ def gen_specs(rng, tier):
   for n in (1, 2, 3, 4):
     specs.append(dict(stream="mostneg", family="dense", pre=None, n_in=n, src=("s", 3, 0),
                       layers=[dict(w="fixed_mostneg", b="none", act=None, act_mode=None, units=1, raw="allmin")]))
-  # (c) known-finding streams: default-alpha ternary/binary kernels, tanh, po2 max_value<=1, Flatten after tanh
+  # (c) known-finding streams (default-alpha ternary/binary kernels, po2 max_value<=1) and regression streams
+  #     of repaired findings (tanh int_bits, Flatten after tanh / ulaw / bernoulli / stochastic_binary)
   for wk in ("ternary_auto", "binary_auto"):
     specs.append(dict(stream="unit_auto", family="dense", pre=None,
                       layers=[dict(w=wk, b="none", act=None, act_mode=None)]))
@@ -150,6 +161,12 @@ def gen_specs(rng, tier):
                     layers=[dict(w="fixed", b="fixed", act=None, act_mode=None)]))
   specs.append(dict(stream="tanh_flatten", family="conv2d", pre="tanh", flatten_first=True,
                     layers=[dict(w="fixed", b="none", act=None, act_mode=None, kind="dense")]))
+  # the other qtools classes whose record is re-made on an edge behind a pass-through layer
+  # (quantized_ulaw emits companded, non-uniform levels by design — its qtools record only counts them — so that
+  #  model is compared on TYPES only; its values are outside C18_tensor_fits, see notes/C18.md)
+  for pre in ("ulaw", "bernoulli", "stochastic_binary"):
+    specs.append(dict(stream="remake_" + pre, family="conv2d", pre=pre, flatten_first=True, types_only=pre == "ulaw",
+                      layers=[dict(w="fixed", b="none", act=None, act_mode=None, kind="dense")]))
   specs.append(dict(stream="po2_mv1", family="dense", pre="po2_mv1",
                     layers=[dict(w="fixed", b="none", act=None, act_mode=None)]))
   # auto_po2 depthwise kernel with depth_multiplier 2: QTools asserts (the model must reject it too)
@@ -157,6 +174,17 @@ def gen_specs(rng, tier):
                     layers=[dict(w="auto_po2", b="fixed", act=None, act_mode=None, dm=2)]))
   specs.append(dict(stream="dw_auto_dm1", family="depthwise", pre="relu",
                     layers=[dict(w="auto_po2", b="fixed", act=None, act_mode=None, dm=1)]))
+  # estimator regression (repaired loop bound): depthwise kernels with several input channels AND a depth
+  # multiplier > 1 and a per-channel bias — output channel c*dm + m must be paired with k[:, :, c, m] and b[c*dm + m]
+  for dm in (2, 3):
+    specs.append(dict(stream="est_dw", family="depthwise", pre=None, cin=int(rng.choice([2, 3])),
+                      layers=[dict(w="fixed", b="fixed", act=None, act_mode=None, dm=dm)]))
+  # aimed: 1x1 kernel, 2 input channels, depth multiplier 2, range (-1, 1).  Output channel 1 = (c=0, m=1) has weight
+  # 7/8 and bias 7/8 (bound 14/8, estimate 1); pairing the slices in the order m*cin + c instead of c*dm + m puts the
+  # bias 7/8 on the weight 1/8 (largest bound 1, estimate 0 < log2 of the real output 14/8)
+  specs.append(dict(stream="est_dw", family="depthwise", pre=None, cin=2, ksize=(1, 1), est_range=(-1.0, 1.0),
+                    layers=[dict(w="fixed40", b="fixed40", act=None, act_mode=None, dm=2,
+                                 set_w=([[[[0.125, 0.875], [0.125, 0.125]]]], [0.0, 0.875, 0.0, 0.0]))]))
   # (d) chains: layer.activation vs separate QActivation, Flatten between conv and dense
   n_chain = 8 if tier == "quick" else 120
   for _ in range(n_chain):
@@ -255,6 +283,8 @@ def build(rng, spec, idx):
                     keep_negative=bool(rng.random() < 0.8), alpha=None)
   kh, kw_ = int(rng.choice([1, 2, 3])), int(rng.choice([1, 2, 3]))
   cin = int(rng.choice([1, 2, 3]))
+  cin = spec.get("cin", cin)
+  kh, kw_ = spec.get("ksize", (kh, kw_))
   if fam == "dense":
     n_in = spec.get("n_in", int(rng.choice([1, 2, 3, 4, 5, 8, 9])))
     ishape = (n_in,)
@@ -311,7 +341,7 @@ def build(rng, spec, idx):
       cls = "QDepthwiseConv2D"
     x = lyr(x)
     it = dict(kind="layer", cls=cls, layer=lyr, wspec=wspec, bspec=bspec, aspec=aspec if attr_act is not None else None,
-              raw=ls.get("raw", "random"), wkind=ls["w"])
+              raw=ls.get("raw", "random"), wkind=ls["w"], set_w=ls.get("set_w"))
     b.items.append(it)
     b.nodes.append(None)      # filled after the weights are known (kernel shape, auto_po2 scales)
     if aspec is not None and attr_act is None:
@@ -326,6 +356,8 @@ def build(rng, spec, idx):
     new = [raw_weights(rng, it["wspec"], ws[0].shape, it["raw"])]
     if it["bspec"] is not None:
       new.append(raw_bias(rng, it["bspec"], ws[1].shape[0]))
+    if it["set_w"] is not None:
+      new = [np.asarray(v, dtype=np.float32) for v in it["set_w"]][: len(ws)]
     lyr.set_weights(new)
     it["kshape"] = [int(v) for v in ws[0].shape]
   return b
@@ -459,7 +491,8 @@ def run(run: core.Run, tier: str):
   run.extra["rule"] = (
       "models: grid of (weight kind x preceding activation kind) single dense/conv1d/conv2d/depthwise layers "
       "with none/fixed/po2 bias, aimed most-negative cases with N=1..4 terms, default-alpha ternary/binary "
-      "kernels, tanh / po2(max_value=1) activations, Flatten after tanh, random 2-layer chains with "
+      "kernels, tanh / po2(max_value=1) activations, Flatten after tanh / ulaw / bernoulli / stochastic_binary, "
+      "random 2-layer chains with "
       "layer.activation or separate QActivation; inputs: all-max, all-min, sign-aligned and anti-aligned with "
       "each output channel's effective kernel, random lattice points; non-trivial = distinct (stream, family, "
       "weight/bias/activation quantizers, kernel shape); every tensor value is judged by Lean Val on the type "
@@ -569,6 +602,9 @@ def run(run: core.Run, tier: str):
 
     # ---- stream 2: values vs reported types (judged later in one driver call)
     for pos, (it, rep) in enumerate(zip(b.items, impl_reports)):
+      if spec.get("types_only"):
+        run.count("values_not_judged(types_only)")
+        break
       base = {"model": idx, "pos": pos, "stream": spec["stream"], "family": spec["family"]}
       judge(rep["input"], uniq(it["x"]), dict(base, site="layer_input", kindof=it["kind"], cls=it.get("cls"),
                                                prev=(b.items[pos - 1]["kind"] if pos else "source"),
@@ -619,7 +655,7 @@ def run(run: core.Run, tier: str):
         run.count("bias_%s" % ("none" if t["bias"] is None else "mode%d" % t["bias"]["mode"]))
 
     # ---- stream 3: the estimator, single q-layer models whose kernel re-quantizes idempotently
-    if len(layers) == 1 and layers[0]["scale"] is None and spec["stream"] in ("grid", "random", "mostneg"):
+    if len(layers) == 1 and layers[0]["scale"] is None and spec["stream"] in ("grid", "random", "mostneg", "est_dw"):
       it = layers[0]
       lyr = it["layer"]
       try:
@@ -639,14 +675,25 @@ def run(run: core.Run, tier: str):
       xmin, xmax = choices[int(rng.integers(0, len(choices)))]
       if xmin > xmax or xmin == xmax:
         xmin, xmax = -1.0, 1.0
+      if "est_range" in spec:
+        xmin, xmax = spec["est_range"]
       try:
         with np.errstate(all="ignore"), quiet():
           res = analyze_accumulator(model, {lyr.name: (xmin, xmax)})
         impl = {"ok": int(res[lyr.name])}
-      except (OverflowError, IndexError) as e:
+      except (OverflowError, IndexError, ValueError) as e:
         impl = {"err": type(e).__name__}
-      slices = [core.enc_list(k[..., i].ravel()) for i in range(k.shape[-1])]
-      est_lines.append({"op": "est", "shape1": int(k.shape[1]), "slices": slices, "bias": core.enc_list(bvec),
+      # one flattened kernel slice per OUTPUT channel, from the layer semantics (not from the implementation's
+      # indexing): dense / conv: k[..., o]; depthwise (kh, kw, cin, dm): output channel c*dm + m <- k[:, :, c, m]
+      if it["cls"] == "QDepthwiseConv2D":
+        cin_, dm_ = k.shape[-2], k.shape[-1]
+        chan = [k[:, :, c, m] for c in range(cin_) for m in range(dm_)]
+      else:
+        chan = [k[..., o] for o in range(k.shape[-1])]
+      if not lyr.use_bias:
+        bvec = np.zeros((len(chan),))
+      slices = [core.enc_list(c_.ravel()) for c_ in chan]
+      est_lines.append({"op": "est", "slices": slices, "bias": core.enc_list(bvec),
                         "xmin": core.rj(xmin), "xmax": core.rj(xmax)})
       # measured max |output| of the REAL layer on extremal inputs inside [xmin, xmax]
       ish = tuple(xin.shape[1:])
@@ -809,19 +856,15 @@ def run(run: core.Run, tier: str):
     if not agree:
       run.disagree("analyze_accumulator", {k_: meta[k_] for k_ in ("model", "cls", "shape", "xmin", "xmax", "wlabel")},
                    meta["impl"], mres)
-    shape1 = meta["shape"][1]
-    # the loop `for i in range(k.shape[1])` with k[..., i], b[i] walks the output channels only when axis 1 is as
-    # long as the last axis and the last axis IS the output-channel axis (never for depthwise kernels)
-    n_out = meta["shape"][-1] if meta["cls"] != "QDepthwiseConv2D" else -1
     rank = len(meta["shape"])
     if "err" in meta["impl"]:
       run.count("est_raises_" + meta["impl"]["err"])
-      # the estimator cannot size a valid layer
+      # the estimator cannot size a valid layer: only acceptable when every output channel is identically zero
+      # on the range (OverflowError on log2 0, Props.C18.C18_estimator_overflow_only_zero)
       nonzero = any(v > 0 for v in meta["per_chan"])
-      if meta["impl"]["err"] == "IndexError" or nonzero:
+      if meta["impl"]["err"] != "OverflowError" or nonzero:
         run.violate("estimator_bounds_output",
-                    {"site": "estimator", "exc": meta["impl"]["err"], "rank": rank,
-                     "loop_bound_is_cout": shape1 == n_out},
+                    {"site": "estimator", "exc": meta["impl"]["err"], "cls": meta["cls"], "rank": rank},
                     {"layer": meta["cls"], "kernel_shape": meta["shape"], "range": [meta["xmin"], meta["xmax"]],
                      "max_abs_output_per_channel": meta["per_chan"]}, mirrored=agree)
       continue
@@ -829,18 +872,11 @@ def run(run: core.Run, tier: str):
     bound = 2.0 ** est
     badc = [c for c, v in enumerate(meta["per_chan"]) if v > bound]
     run.count("est_ok")
+    run.count("est_ok_bias_nonzero" if meta["bias_nonzero"] else "est_ok_bias_zero")
     if badc:
-      causes = set()
-      for c in badc:
-        if c >= shape1:
-          causes.add("unvisited-channel")
-        elif meta["bias_nonzero"] and meta["xmax"] < 1:
-          causes.add("bias-scaled")
-        else:
-          causes.add("other")
       run.violate("estimator_bounds_output",
-                  {"site": "estimator", "exc": None, "rank": rank, "loop_bound_is_cout": shape1 == n_out,
-                   "causes": "+".join(sorted(causes))},
+                  {"site": "estimator", "exc": None, "cls": meta["cls"], "rank": rank,
+                   "bias_nonzero": meta["bias_nonzero"]},
                   {"layer": meta["cls"], "kernel_shape": meta["shape"], "range": [meta["xmin"], meta["xmax"]],
                    "estimate": est, "max_abs_output_per_channel": meta["per_chan"], "channels_over": badc},
                   mirrored=agree)
